@@ -23,7 +23,7 @@ ASSUMPTIONS = ['reference prices: long liq = entry*(1 - 1/L + 0.004), bankruptcy
                'range of a minute = open-normalised input candle; of a chunk = union of its minutes']
 MIN_OBS = {'liquidation_checks_with_open_position': 3000, 'liquidations': 150, 'near_misses': 60, 'exact_touches': 40,
            'protective_stop_wins': 40, 'control_sessions': 100, 'one_ulp_cases': 60,
-           'liquidation_checks_on_reentered_position': 300, 'sessions_with_a_second_candle_series': 200}
+           'liquidation_checks_on_reentered_position': 300, 'sessions_with_a_second_candle_series': 200, 'liquidations_of_all_in_positions': 10}
 LEVS = [1, 2, 3, 5, 10, 25, 50, 100, 125]
 PATTERNS = ['near_miss', 'ulp_short', 'touch', 'ulp_beyond', 'overshoot', 'gap_jump']
 
@@ -47,6 +47,10 @@ def build(job):
                         'vol': 0.0005})
     entry = float(base[m, 2])
     q1 = round(0.2 * 10000 * lev / entry, 3)
+    if job.get('all_in') and not job['averaged'] and not job.get('reentry'):
+        # nearly the whole wallet backs the position: at a forced close the margin plus the closing fee exceed what is left
+        # after the entry fee (the wallet goes below zero - the loss is still initial margin plus fees)
+        q1 = math.floor(0.999 * 10000 * lev / entry * 1000) / 1000
     rows = [r for r in base]
     avg = job['averaged']
     entry_eff = entry
@@ -304,6 +308,8 @@ def check_trace(events, arr, cfg, job):
                            f'does not contain {liq}', candle=ent['c'])
                 elif must and forced:
                     c('liquidations')
+                    if job.get('all_in') and not job['averaged'] and not job.get('reentry') and fee > 0:
+                        c('liquidations_of_all_in_positions')
                     if len(forced) != 1:
                         v('more_than_one_liquidation_order', f'{len(forced)} liquidation orders')
                     f = forced[0]
@@ -366,6 +372,7 @@ def make_jobs(tier, seed):
                          'tf': rng.choice(['1m', '1m', '5m']), 'fee': rng.choice([0, 0.0005, 0.001]),
                          'close_mode': rng.choice(['half', 'half', 'recover_profit', 'at_extreme']),
                          'resting_tps': rng.choice([0, 0, 3, 4]), 'partial_tp': rng.random() < 0.5, 'callback_market': rng.random() < 0.5, 'wick_gap': rng.random() < 0.3,
-                         'reentry': rng.random() < 0.35, 'extra_series': rng.choice([None, None, 'ETH-USDT', 'SOL-USDT'])})
+                         'reentry': rng.random() < 0.35, 'extra_series': rng.choice([None, None, 'ETH-USDT', 'SOL-USDT']),
+                         'all_in': rng.random() < 0.2})
             i += 1
     return jobs
